@@ -1,7 +1,7 @@
 """py2meth: translate straight-line methods / functions whose statements are library calls into Lean, the library calls getting
 their meaning from a hand-written "world" (`Model/LossWorld.lean`, `Model/DistPublicWorld.lean`, `Model/NetWorld.lean`).  Stdlib `ast` only; the source is
 parsed, never imported.  Sibling of `py2loop.py` (same discipline, different subset): every statement of every function listed in
-a typing sheet (`targets_losses.py`, `targets_dist_public.py`, `targets_families.py` with world `Model/FamiliesWorld.lean`, `targets_net.py`, `targets_jaxtr.py`, `targets_bnafnet.py`) is translated or the function is REFUSED (an error entry in the
+a typing sheet (`targets_losses.py`, `targets_dist_public.py`, `targets_families.py` with world `Model/FamiliesWorld.lean`, `targets_net.py`, `targets_jaxtr.py`, `targets_bnafnet.py`, `targets_bisectgen.py` with world `Model/BisectWorld.lean`) is translated or the function is REFUSED (an error entry in the
 generation report = a broken tie).
 
 The translation is TYPED: the sheet gives the Lean type of every parameter / class field and a table of primitives
